@@ -15,6 +15,19 @@ func (e *Engine) ifaceFacts(iface, method string, args []Val, res []Val, reach s
 		}
 		return "false"
 	}
+	if e.fc != nil && len(res) >= 2 {
+		for _, suffix := range e.fc.TrustNonNil {
+			if !strings.HasSuffix(iface, suffix) {
+				continue
+			}
+			for _, r := range res[:len(res)-1] {
+				if pv, ok := r.(PtrV); ok {
+					e.fact(imp(and(reach, errNil(len(res)-1)), not(pv.Nil)))
+					e.trustedUsed[suffix+": a method that returns a nil error returns non-nil pointer results"] = true
+				}
+			}
+		}
+	}
 	switch {
 	case strings.HasSuffix(iface, "storage.Storage") && (method == "GetObject" || method == "HeadObject") && len(res) >= 2:
 		// storage.Storage: a successful GetObject / HeadObject returns the object
